@@ -245,7 +245,7 @@ fn boundary_cases(tier: Tier) -> Vec<Case> {
             if (ai + bi) % step != 0 && !(*b == 0 || *b == -1 || *a == i64::MIN) {
                 continue;
             }
-            for op in ["+", "-", "*", "/", "%"] {
+            for op in ["+", "-", "*", "/", "%", "<", "<=", ">", ">=", "==", "!="] {
                 v.push(Case::new(
                     format!("a := {}\nb := {}\nprint(a {} b)\n", super::c06::lit(*a), super::c06::lit(*b), op),
                     3,
@@ -259,7 +259,7 @@ fn boundary_cases(tier: Tier) -> Vec<Case> {
         let lits = ["0", "1", "-1", "2", "9223372036854775807", "-9223372036854775807", "(-9223372036854775807 - 1)", "4611686018427387904"];
         for a in lits {
             for b in lits {
-                for op in ["+", "-", "*", "/", "%"] {
+                for op in ["+", "-", "*", "/", "%", "<", "<=", ">", ">=", "==", "!="] {
                     v.push(Case::new(format!("print(\"pre\")\nprint({} {} {})\n", a, op, b), 3, format!("literals {} {} {}", a, op, b)));
                     v.push(Case::new(format!("print(\"pre\")\nx := [{} {} {}, 0]\ns := $\"${{\"ab\"[({} {} {}) * 0]}}\"\nprint(s)\n", a, op, b, a, op, b), 3, format!("literals {} {} {} in a list and a slot", a, op, b)));
                 }
@@ -314,6 +314,19 @@ fn boundary_cases(tier: Tier) -> Vec<Case> {
     }
     for prog in super::evalorder::SELF_TARGET_PROGRAMS {
         v.push(Case::new(prog.to_string(), 3, "targets, indices or bounds that reach the container being assigned".to_string()));
+    }
+    for prog in super::evalorder::deep_print_programs() {
+        v.push(Case::new(prog, 3, "a value nested many containers deep, printed".to_string()));
+    }
+    // `this` as a declared name: parameters, patterns and variables called `this`, reached plainly
+    // and through an object
+    for decl in ["fn f(this, s) {\nprint(s)\n}", "fn f(s, this) {\nprint(s)\n}", "fn f([this], s) {\nprint(s)\n}", "fn f({this}, s) {\nprint(s)\n}", "fn f(s, ..this) {\nprint(s)\n}", "f := fn (this, s) {\nprint(s)\n}", "fn f(a, s) {\nthis := 1\nprint(s)\n}", "fn f(a, s) {\nfor this in [1] {\nprint(s)\n}\n}", "fn f(a, s) {\n[this] := [1]\nprint(s)\n}"] {
+        for call in ["f([1], \"direct\")", "o.f([1], \"via\")", "o[\"f\"]({\"this\": 1}, \"key\")", "g := o.f\ng([1], \"held\")", "l[0]([1], \"item\")", "f({\"this\": 2}, \"direct\")"] {
+            v.push(Case::new(format!("{}\no := {{\"f\": f}}\nl := [o.f]\nprint(\"pre\")\n{}\nprint(\"post\")\n", decl, call), 3, format!("`this` declared by {:?}, called as {}", decl.replace('\n', " "), call)));
+        }
+    }
+    for prog in super::evalorder::SELF_READ_PROGRAMS {
+        v.push(Case::new(prog.to_string(), 3, "an index, key or bound that reads the container it is applied to".to_string()));
     }
     // text inside slots where a name or number touches a multi-byte character
     for slot in ["x€", "1é", "xé + 1", "x😀x", "é", "\"é\"x", "x.é", "x[€]", "x[\u{ff11}]", "\u{ff11}", "x + \u{b2}", "\u{bd}", "\u{663}", "1\u{ff11}", "x\u{ff11}", "\u{2167}", "\u{1d7ce}"] {
